@@ -357,3 +357,260 @@ Proof.
   unfold step. rewrite H1. cbn. repeat split; auto.
   rewrite (abs_len o' H2), (abs_len o Hi). now rewrite H3.
 Qed.
+
+(* ------------------- exactly once, in order, unmodified: ghost accounting --- *)
+
+Definition op_appended (p : op) : list N :=
+  match spec_of p with Some sp => q_appended_by sp | None => [] end.
+Definition op_consumed (q : queue) (p : op) : nat :=
+  match spec_of p with Some sp => q_consumed_by q sp | None => 0%nat end.
+(* all bytes appended by a history, in order *)
+Fixpoint appended_of (ops : list op) : list N :=
+  match ops with [] => [] | p :: ops' => op_appended p ++ appended_of ops' end.
+(* the number of bytes consumed by a history that starts with queue q *)
+Fixpoint consumed_of (q : queue) (ops : list op) : nat :=
+  match ops with [] => 0%nat | p :: ops' => (op_consumed q p + consumed_of (q_next_op q p) ops')%nat end.
+
+Lemma one_step_stream q p X :
+  q_next_op q p ++ X = skipn (op_consumed q p) (q ++ op_appended p ++ X) /\
+  (op_consumed q p <= length q)%nat.
+Proof.
+  unfold q_next_op, op_consumed, op_appended.
+  destruct p as [s | n [|] | n ap | | |]; cbn [spec_of q_appended_by q_consumed_by app skipn];
+    unfold q_next, q_step, q_append, q_consume; cbn [fst];
+    try (split; [reflexivity | lia]).
+  - split; [now rewrite app_assoc | lia].
+  - pose proof (q_peek_length_le n q). split; [now rewrite skipn_app_le | lia].
+  - unfold q_len. destruct (Z.of_N n <=? Z.of_nat (length q)) eqn:E; cbn [fst].
+    + split; [rewrite skipn_app_le; [reflexivity | lia] | lia].
+    + split; [reflexivity | lia].
+Qed.
+
+Lemma stream_position ops : forall q,
+  q_exec_op q ops = skipn (consumed_of q ops) (q ++ appended_of ops) /\
+  (consumed_of q ops <= length q + length (appended_of ops))%nat.
+Proof.
+  unfold q_exec_op. induction ops as [|p ops IH]; intro q; cbn [fold_left consumed_of appended_of].
+  - rewrite app_nil_r. cbn. split; [reflexivity | lia].
+  - destruct (IH (q_next_op q p)) as (H1 & H2).
+    destruct (one_step_stream q p (appended_of ops)) as (H3 & H4).
+    rewrite H1, H3, skipn_skipn. split.
+    + f_equal. lia.
+    + assert (L : length (q_next_op q p ++ appended_of ops) =
+                  (length (q ++ op_appended p ++ appended_of ops) - op_consumed q p)%nat)
+        by (rewrite H3; apply skipn_length).
+      rewrite !app_length in *. lia.
+Qed.
+
+(* After any history: what is still queued is the appended stream minus its
+   first [consumed] bytes; so every byte leaves at most once, in order and
+   unmodified, and len = appended - consumed. *)
+Theorem exactly_once limit ovf ops : Forall live ops ->
+  let o := exec limit ovf o_new ops in
+  let A := appended_of ops in
+  let C := consumed_of q_empty ops in
+  (C <= length A)%nat /\
+  abs o = skipn C A /\
+  o_len o = Z.of_nat (length A) - Z.of_nat C /\
+  (forall p, live p -> out_ok (skipn C A) p (snd (step limit ovf o p))).
+Proof.
+  intros Hl o A C.
+  destruct (history_refines limit ovf ops Hl) as (Hi & Ha & Hlen & Hout & _). fold o in Hi, Ha, Hlen, Hout.
+  destruct (stream_position ops q_empty) as (H1 & H2). cbn [app q_empty length] in H1, H2.
+  fold A C in H1, H2. rewrite H1 in *. repeat split; auto.
+  rewrite Hlen. unfold q_len. rewrite skipn_length. lia.
+Qed.
+
+(* ------------------------------------------------------------- close --- *)
+
+Lemma close_str o : ob_buf o = None -> o_close o = o.
+Proof. intro H. unfold o_close. now rewrite H. Qed.
+
+(* a buffer whose file representation has been closed *)
+Definition dead (o : obuf) : Prop :=
+  exists b, ob_buf o = Some b /\ f_closed (fb_file b) = true.
+
+Lemma close_file o b : ob_buf o = Some b -> dead (o_close o) /\ o_len (o_close o) = 0.
+Proof.
+  intro H. unfold o_close, dead, o_len. rewrite H. cbn. split; [|reflexivity].
+  eexists; split; reflexivity.
+Qed.
+
+(* after close() of a file representation nothing comes out any more *)
+Lemma dead_step limit ovf o p : dead o ->
+  dead (fst (step limit ovf o p)) /\ (forall b, snd (step limit ovf o p) <> RBytes b) /\
+  (p <> OClose -> fst (step limit ovf o p) = o).
+Proof.
+  intros (b & Hb & Hc).
+  destruct p as [s | n sk | n ap | | |]; unfold step.
+  - unfold o_append, o_append_tail, fb_append. rewrite Hb, Hc. cbn.
+    repeat split; try discriminate. exists b; auto.
+  - unfold o_get, o_get_tail, fb_get. rewrite Hb, Hc. cbn.
+    repeat split; try discriminate. exists b; auto.
+  - unfold o_skip, o_skip_tail, fb_skip. rewrite Hb, Hc.
+    destruct (fb_remain b <? Z.of_N n); cbn; (repeat split; try discriminate; exists b; auto).
+  - cbn. repeat split; try discriminate. exists b; auto.
+  - unfold o_getfile. rewrite Hb. cbn. repeat split; try discriminate. exists b; auto.
+  - unfold o_close. rewrite Hb. cbn. repeat split; try discriminate; try tauto.
+    eexists; split; reflexivity.
+Qed.
+
+(* ----------------------- which representation holds how many bytes --- *)
+
+(* plain bytes hold fewer than STRBUF_LIMIT bytes; an in-memory file holds
+   fewer than [overflow] bytes (otherwise it has been moved to a temporary file) *)
+Definition inv_thr (limit ovf : N) (o : obuf) : Prop :=
+  match ob_buf o with
+  | None => ob_strbuf o = [] \/ lenZ (ob_strbuf o) < Z.of_N limit
+  | Some b => fb_kind b = KBio -> fb_remain b < Z.of_N ovf
+  end.
+
+Lemma thr_new limit ovf : inv_thr limit ovf o_new.
+Proof. left. reflexivity. Qed.
+
+Lemma thr_create limit ovf o : inv o -> ob_buf o = None ->
+  inv_thr limit ovf (fst (o_create_buffer ovf o)).
+Proof.
+  intros Hi Hb. destruct (create_buffer_spec ovf o Hi Hb) as (o1 & b & Hc & Hb1 & Hi1 & Ha1 & Hk).
+  rewrite Hc. cbn [fst]. unfold inv_thr. rewrite Hb1. intro Hkb.
+  assert (Hr : fb_remain b = lenZ (ob_strbuf o)).
+  { pose proof Hi1 as Hi2. unfold inv in Hi2. rewrite Hb1 in Hi2. destruct Hi2 as (_ & Hfb & _).
+    rewrite (fb_abs_len b Hfb). unfold abs in Ha1. rewrite Hb1 in Ha1. now rewrite Ha1. }
+  destruct Hk as [(Hk & _) | (_ & Hlt)]; [congruence | lia].
+Qed.
+
+Lemma thr_append_tail limit ovf s o b : inv o -> ob_buf o = Some b ->
+  inv_thr limit ovf (fst (o_append_tail ovf s o b)).
+Proof.
+  intros Hi Hb. inv_some Hi Hb.
+  destruct (fb_append_spec b s Hfb) as (b' & Ha & Hi' & Habs & Hk' & Hp & Hc & Hr).
+  unfold o_append_tail. rewrite Ha. cbn [ob_overflowed ob_strbuf].
+  destruct (ob_overflowed o) eqn:Eo; cbn [negb].
+  - cbn [fst]. unfold inv_thr. cbn [ob_buf]. intro Hkb. rewrite Hk' in Hkb.
+    assert (fb_kind b = KTmp) by now apply Hov. congruence.
+  - destruct (fb_len b' >=? Z.of_N ovf) eqn:E.
+    + unfold o_set_large_buffer. cbn [ob_buf ob_strbuf]. rewrite (fb_init_copy KTmp b' Hi').
+      cbn [fst]. unfold inv_thr. cbn [ob_buf fb_kind]. discriminate.
+    + cbn [fst]. unfold inv_thr. cbn [ob_buf]. intros _. unfold fb_len in E. lia.
+Qed.
+
+Lemma thr_get_tail limit ovf n sk o b : inv o -> inv_thr limit ovf o -> ob_buf o = Some b ->
+  inv_thr limit ovf (fst (o_get_tail n sk o b)).
+Proof.
+  intros Hi Ht Hb. unfold inv_thr in Ht. rewrite Hb in Ht. pose proof Hi as Hi0. inv_some Hi Hb.
+  destruct sk.
+  - destruct (fb_get_skip b n Hfb) as (b' & Hg & Hi' & Habs & Hk' & _ & _ & Hr).
+    unfold o_get_tail. rewrite Hg. cbn [fst]. unfold inv_thr. cbn [ob_buf]. rewrite Hk'. intro Hkb.
+    specialize (Ht Hkb). unfold lenZ in Hr. lia.
+  - rewrite (get_tail_noskip n o b Hi0 Hb). cbn [fst]. unfold inv_thr. now rewrite Hb.
+Qed.
+
+Lemma thr_skip_tail limit ovf n o b : inv o -> inv_thr limit ovf o -> ob_buf o = Some b ->
+  inv_thr limit ovf (fst (o_skip_tail n o b)).
+Proof.
+  intros Hi Ht Hb. pose proof Ht as Ht0. unfold inv_thr in Ht. rewrite Hb in Ht. inv_some Hi Hb.
+  unfold o_skip_tail. destruct (Z_le_gt_dec (Z.of_N n) (fb_remain b)) as [Hle | Hgt].
+  - destruct (fb_skip_ok b n Hfb Hle) as (b' & Hg & Hi' & Habs & Hk' & _ & _ & Hr).
+    rewrite Hg. cbn [fst]. unfold inv_thr. cbn [ob_buf]. rewrite Hk'. intro Hkb.
+    specialize (Ht Hkb). lia.
+  - rewrite (fb_skip_err b n ltac:(lia)). exact Ht0.
+Qed.
+
+Lemma thr_step limit ovf o p : inv o -> inv_thr limit ovf o -> live p ->
+  inv_thr limit ovf (fst (step limit ovf o p)).
+Proof.
+  intros Hi Ht Hl. destruct p as [s | n sk | n ap | | |]; unfold step.
+  - unfold o_append. destruct (ob_buf o) as [b|] eqn:Hb.
+    + pose proof (thr_append_tail limit ovf s o b Hi Hb) as H.
+      destruct (o_append_tail ovf s o b); exact H.
+    + destruct (lenZ (ob_strbuf o) + lenZ s <? Z.of_N limit) eqn:E.
+      * cbn. unfold inv_thr. cbn [ob_buf ob_strbuf]. right. unfold lenZ in *. rewrite app_length. lia.
+      * destruct (create_buffer_spec ovf o Hi Hb) as (o1 & b & Hc & Hb1 & Hi1 & _).
+        rewrite Hc. pose proof (thr_append_tail limit ovf s o1 b Hi1 Hb1) as H.
+        destruct (o_append_tail ovf s o1 b); exact H.
+  - unfold o_get. destruct (ob_buf o) as [b|] eqn:Hb.
+    + pose proof (thr_get_tail limit ovf n sk o b Hi Ht Hb) as H.
+      destruct (o_get_tail n sk o b) as [o' [r|e]]; exact H.
+    + destruct sk; cbn [negb].
+      * pose proof (thr_create limit ovf o Hi Hb) as Ht1.
+        destruct (create_buffer_spec ovf o Hi Hb) as (o1 & b & Hc & Hb1 & Hi1 & _).
+        rewrite Hc in *. cbn [fst] in Ht1.
+        pose proof (thr_get_tail limit ovf n true o1 b Hi1 Ht1 Hb1) as H.
+        destruct (o_get_tail n true o1 b) as [o' [r|e]]; exact H.
+      * exact Ht.
+  - unfold o_skip. destruct (ob_buf o) as [b|] eqn:Hb.
+    + pose proof (thr_skip_tail limit ovf n o b Hi Ht Hb) as H.
+      destruct (o_skip_tail n o b) as [o' [r|e]]; exact H.
+    + destruct (ap && (Z.of_N n =? lenZ (ob_strbuf o))).
+      * cbn. left. reflexivity.
+      * pose proof (thr_create limit ovf o Hi Hb) as Ht1.
+        destruct (create_buffer_spec ovf o Hi Hb) as (o1 & b & Hc & Hb1 & Hi1 & _).
+        rewrite Hc in *. cbn [fst] in Ht1.
+        pose proof (thr_skip_tail limit ovf n o1 b Hi1 Ht1 Hb1) as H.
+        destruct (o_skip_tail n o1 b) as [o' [r|e]]; exact H.
+  - exact Ht.
+  - unfold o_getfile. destruct (ob_buf o) as [b|] eqn:Hb.
+    + exact Ht.
+    + pose proof (thr_create limit ovf o Hi Hb) as Ht1.
+      destruct (create_buffer_spec ovf o Hi Hb) as (o1 & b & Hc & _).
+      rewrite Hc in *. exact Ht1.
+  - now elim Hl.
+Qed.
+
+Theorem representation_bounds limit ovf ops : Forall live ops ->
+  let o := exec limit ovf o_new ops in
+  match rep_of o with
+  | Str s => ob_overflowed o = false /\ (s = [] \/ lenZ s < Z.of_N limit)
+  | Bio f r => ob_overflowed o = false /\ r < Z.of_N ovf
+  | Tmp f r => ob_overflowed o = true
+  end.
+Proof.
+  intros Hl o.
+  assert (H : inv o /\ inv_thr limit ovf o).
+  { subst o. unfold exec. generalize inv_new (thr_new limit ovf). generalize o_new.
+    induction ops as [|p ops IH]; intros o Hi Ht; cbn [fold_left]; [auto|].
+    inversion Hl as [|? ? Hp Hl']; subst.
+    destruct (step_refines limit ovf o p Hi Hp) as (H1 & _).
+    apply IH; auto. now apply thr_step. }
+  destruct H as (Hi & Ht). unfold inv, inv_thr, rep_of in *.
+  destruct (ob_buf o) as [b|]; [|auto].
+  destruct Hi as (_ & _ & Hk & Hov).
+  destruct (fb_kind b) eqn:Ek.
+  - split; [|auto]. destruct (ob_overflowed o); [|reflexivity]. destruct Hov as [Hov _]. now specialize (Hov eq_refl).
+  - now apply Hov.
+  - destruct Hk; discriminate.
+Qed.
+
+Theorem no_exception limit ovf ops p : Forall live ops ->
+  let o := exec limit ovf o_new ops in
+  respects (abs o) p -> forall e, snd (step limit ovf o p) <> RExn e.
+Proof.
+  intros Hl o Hr. destruct (exec_refines limit ovf ops o_new inv_new Hl) as (Hi & _).
+  now apply step_no_exn.
+Qed.
+
+(* close(): a no-op on plain bytes (nothing to close); on a file representation
+   the length drops to 0 and from then on no operation yields bytes or changes
+   the state *)
+Theorem after_close limit ovf ops more : Forall live ops ->
+  let o := exec limit ovf o_new ops in
+  let oc := o_close o in
+  (ob_buf o = None -> oc = o) /\
+  (ob_buf o <> None ->
+     o_len oc = 0 /\
+     let o' := exec limit ovf oc more in
+     dead o' /\ o_len o' = 0 /\
+     forall p b, snd (step limit ovf o' p) <> RBytes b).
+Proof.
+  intros Hl o oc. split; [apply close_str|].
+  intro Hb. destruct (ob_buf o) as [b|] eqn:E; [|now elim Hb].
+  destruct (close_file o b E) as (Hd & Hlen). fold oc in Hd, Hlen. split; [exact Hlen|].
+  cbv zeta.
+  assert (H : dead (exec limit ovf oc more) /\ o_len (exec limit ovf oc more) = 0).
+  { unfold exec. revert Hd Hlen. generalize oc. induction more as [|p more IH]; intros x Hd Hlen; cbn [fold_left]; [auto|].
+    destruct (dead_step limit ovf x p Hd) as (H1 & _ & H3).
+    apply IH; [exact H1|]. destruct p; try (rewrite H3 by discriminate; exact Hlen).
+    unfold step. cbn [fst]. destruct Hd as (bb & Hbb & _). unfold o_close, o_len. rewrite Hbb. reflexivity. }
+  destruct H as (H1 & H2). repeat split; auto.
+  intros p bb. now apply dead_step.
+Qed.
